@@ -2,6 +2,8 @@
 #include "harness/common/pbt.hpp"
 #include "harness/common/carquet_internal.hpp"
 #include "gen/bytes.hpp"
+#include "harness/common/cwriter.hpp"
+#include "ref/parquet_reader.hpp"
 
 using namespace pbt;
 
@@ -95,8 +97,49 @@ static Verdict runC(const C &c) {
   return vd;
 }
 
+// The page writer is the caller that sizes compression buffers from the advertised bounds: a column of incompressible values
+// written in batches of varying size gives pages of varying size (each a little larger or smaller than the ones before)
+// for every codec; under ASan any page that is compressed into a block smaller than its bound is a report.  The file must
+// also decode to what was written (independent reader).
+static rc::Gen<cw::W> genPagesW() {
+  return rc::gen::exec([]() {
+    cw::W w;
+    w.fs.root.name = "schema"; w.fs.root.group = true;
+    int type = *rc::gen::element<int>(pq::INT64, pq::INT32, pq::BYTE_ARRAY);
+    w.fs.root.kids.push_back(gf::leafNode("c0", *irange(0, 1), type, 0));
+    auto lv = pw::leaves(w.fs.root);
+    w.codec = *rc::gen::element(1, 2, 5, 6, 5, 6); w.page_size = *rc::gen::element<int64_t>(512, 1024, 4096, 8192, 8192, 16384); w.order = (uint32_t)*irange(1, 1 << 30); w.level = *rc::gen::element(0, 1, 9);
+    size_t per_page = (size_t)w.page_size / (type == pq::INT32 ? 4 : 8);
+    size_t rows = per_page * (size_t)*irange(2, 6) + (size_t)*irange(0, 50);
+    w.fs.rg_rows.push_back((int64_t)rows);
+    pw::ChunkSpec cs; cs.n = rows;
+    if (lv[0].max_def) cs.def.assign(rows, 1);
+    uint64_t s = (uint64_t)*irange(1, 1 << 30) * 0x9E3779B97F4A7C15ull | 1;
+    for (size_t i = 0; i < rows; i++) { Bytes v; size_t len = type == pq::INT32 ? 4 : type == pq::INT64 ? 8 : 4 + (size_t)(gf::dxs(s) % 9); for (size_t k = 0; k < len; k++) v.push_back((uint8_t)(gf::dxs(s) >> 24)); cs.values.push_back(v); }
+    pw::PageSpec pg; pg.end = rows; cs.pages.push_back(pg);
+    // batches: mostly about one page worth of rows, +- a few, so that successive pages differ slightly in size
+    std::vector<int> part; size_t left = rows;
+    while (left) { size_t k = std::min<size_t>(left, (size_t)std::max<long>(1, (long)per_page + *irange(-6, 40))); part.push_back((int)k); left -= k; }
+    w.fs.row_groups.push_back({cs}); w.parts.push_back({part}); w.nolevels.push_back({0}); w.extra_nrg.push_back(0);
+    return w;
+  });
+}
+static Verdict runPagesW(const cw::W &w) {
+  Verdict vd;
+  auto lv = pw::leaves(w.fs.root);
+  Bytes bytes; std::string err; bool refused = false;
+  if (!cw::writeWith(w, lv, bytes, err, refused)) { if (refused) { vd.vacuous = true; vd.label("writer_refused"); return vd; } return Verdict::fail("harness: " + err); }
+  prd::FileOut fo; prd::Strict st; st.check_total_uncompressed = false; st.check_rg_total_byte_size = false;
+  bool ok = prd::read_file(bytes, fo, err, st);
+  PBT_CHECK(vd, ok, "file with incompressible pages (codec %d, page size %lld) is not readable by the independent reader: %s", w.codec, (long long)w.page_size, err.c_str());
+  PBT_CHECK(vd, fo.chunks.size() == 1 && fo.chunks[0].size() == 1 && fo.chunks[0][0].values == w.fs.row_groups[0][0].values, "values read back from incompressible pages differ (codec %d)", w.codec);
+  vd.nontrivial = fo.chunks[0][0].pages.size() >= 2; vd.label("codec=" + std::to_string(w.codec));
+  return vd;
+}
+
 int main(int argc, char **argv) {
   if (getenv("VERIF_TIER") && std::string(getenv("VERIF_TIER")) == "thorough") g_big = 4000000;
+  add<cw::W>("writer_pages", 0.25, genPagesW, cw::ser, cw::de, runPagesW);
   add<C>("codec_roundtrip", 1, genC, ser, de, runC);
   return main_(argc, argv);
 }
